@@ -152,7 +152,7 @@ func officersOnly(kinds ...int8) func(g *ref.Game, m ref.Move) bool {
 
 func checkC05(c *harness.Check) {
 	mustAnchors(c)
-	c.Rule = "all PushMove sequences to depth n on a real game board with the reference game in lock-step: (a) <=3-move fortress roots, (b) knight/rook/king shuffles on the start position and on castling-rights roots (repetition with the start position; repetition separated by a rights change; castling and the clock), (c) roots set up with clock 93..99, incl. three where every kind of move occurs (en passant, double steps, castling, promotions with and without capture: which of them restart the clock), (d) depth-2 walks from every placement of two bishops (one each / both on one side) and from K+minor/K+P material roots (captures, under-promotions), (e) the same sequences with the tail played on a Fork() taken at every depth, (f) fresh board per path (no take-back involved), (g) mate and stalemate nets in games that already carry an unclaimed repetition or reach clock 100 with the mating move, (h) the repetition walks again (depth <= 9) on boards whose Zobrist table is the zero value - every position hashes to 0, the '2^-64 coincidence' at every step: what is reported about positions must not change. Oracle after every push: draw event now => reported drawn (five-fold named); no event in the whole game => not drawn; clock equal; move-less nodes adjudicated mate iff in check. distinct_nontrivial = distinct (root, repetition count, clock>=100, insufficient, reported reason) classes over nodes with a draw event"
+	c.Rule = "all PushMove sequences to depth n on a real game board with the reference game in lock-step: (a) <=3-move fortress roots, (b) knight/rook/king shuffles on the start position and on castling-rights roots (repetition with the start position; repetition separated by a rights change; castling and the clock), (c) roots set up with clock 93..99 and with clocks beyond the limit around every integer width (101..2^31-3), incl. three where every kind of move occurs (en passant, double steps, castling, promotions with and without capture: which of them restart the clock), (d) depth-2 walks from every placement of two bishops (one each / both on one side) and from K+minor/K+P material roots (captures, under-promotions), (e) the same sequences with the tail played on a Fork() taken at every depth, (f) fresh board per path (no take-back involved), (g) mate and stalemate nets in games that already carry an unclaimed repetition or reach clock 100 with the mating move, (h) the repetition walks again (depth <= 9) on boards whose Zobrist table is the zero value - every position hashes to 0, the '2^-64 coincidence' at every step: what is reported about positions must not change. Oracle after every push: draw event now => reported drawn (five-fold named); no event in the whole game => not drawn; clock equal; move-less nodes adjudicated mate iff in check. distinct_nontrivial = distinct (root, repetition count, clock>=100, insufficient, reported reason) classes over nodes with a draw event"
 	var cc classCap
 	onPush := func(root string, forkAt int, seed int64) func(b *board.Board, g *ref.Game, path []string) {
 		return func(b *board.Board, g *ref.Game, path []string) {
@@ -201,6 +201,12 @@ func checkC05(c *harness.Check) {
 		add(c05job{fmt.Sprintf("r3k2r/8/8/8/8/8/8/R3K2R w KQkq - %d 60", clock), c.Pick(2, 3), nil, -1, false, "clock + castling"})
 	}
 	add(c05job{"k7/p7/P7/8/8/7p/7P/7K w - - 100 70", 3, nil, -1, false, "clock already at limit"})
+	// the fifty-move draw has to be claimed: games go on past 100, and a set-up may carry any clock.
+	// Values around every width a clock might be squeezed into (signed/unsigned 8, 16, 32 bits)
+	for _, clock := range []int{101, 126, 127, 128, 129, 149, 254, 255, 256, 32766, 32767, 32768, 65535, 65536, 1<<31 - 3} {
+		add(c05job{fmt.Sprintf("k7/p7/P7/8/8/7p/7P/7K w - - %d 90", clock), 3, nil, -1, false, "clock beyond the limit carried in"})
+		add(c05job{fmt.Sprintf("k7/p7/P7/8/8/7p/7P/7K b - - %d 90", clock), 2, nil, 1, false, "clock beyond the limit carried in, forked"})
+	}
 	// a fortress with one free pawn each: the DFS explores (and takes back) an irreversible move
 	// before completing repetitions that started earlier on the same line
 	freePawn := func(g *ref.Game, m ref.Move) bool {
